@@ -248,6 +248,30 @@ pub fn run(ctx: &Ctx) -> Report {
             }
         }
     }
+    // the *same* key object used repeatedly (a rejected key must stay rejected, and stay intact)
+    for k in keys.iter() {
+        let mut prog = vec![class_stmt("K", None, Some("new"), vec![]), var_stmt("key", key_expr(k.name)), var_stmt("m", Expr::MapLit(vec![(num(7.0), s("seven"))]))];
+        let uses: Vec<Expr> = vec![
+            invoke(var("m"), "insert", vec![var("key"), s("first")]),
+            invoke(var("m"), "insert", vec![var("key"), s("second")]),
+            invoke(var("m"), "has_key", vec![var("key")]),
+            invoke(var("m"), "get", vec![var("key")]),
+            Expr::MapLit(vec![(var("key"), num(1.0))]),
+            invoke(Expr::MapLit(vec![(var("key"), num(1.0))]), "has_key", vec![var("key")]),
+            invoke(var("m"), "remove", vec![var("key")]),
+            invoke(var("m"), "remove", vec![var("key")]),
+            invoke(var("m"), "insert", vec![var("key"), s("third")]),
+        ];
+        for u in uses {
+            prog.push(probe(u));
+            // printing the key between uses: its own state must not have been disturbed
+            if k.name != "lambda" && k.name != "instance" {
+                prog.push(probe(var("key")));
+            }
+            prog.push(probe(invoke(var("m"), "len", vec![])));
+        }
+        cases.push(Case::new("one_key_object_reused", prog));
+    }
     // unhashable keys in a literal
     for k in keys.iter().filter(|k| !k.hashable) {
         cases.push(Case::new(
